@@ -203,6 +203,27 @@ Theorem C02_bam_closed_loop_delivers : forall prio sa dp pf p t0 A0 B0,
 Proof. exact Net22Bam.bam_closed_loop22_delivers. Qed.
 Print Assumptions C02_bam_closed_loop_delivers.
 
+(* ... and for every group that travels as a broadcast: PDU2 groups (any group extension, delivered under dp.pf.ps) as well *)
+Theorem C02_bam_closed_loop_delivers_pdu1_and_pdu2 : forall prio sa dp pf ps p t0 A0 B0,
+  0 <= prio < 8 -> 0 <= sa < 255 -> (0 <= pf < 240 /\ ps = 255) \/ (240 <= pf < 256 /\ 0 <= ps < 256) ->
+  0 <= dp < 2 -> 60 < len p < 16777216 -> 0 < t0 ->
+  0 < f_bam_iv A0 < tp22_T1 -> 2 * f_bam_iv A0 < tp22_T1 ->
+  f_snd A0 = [] /\ f_rcv A0 = [] /\ f_mpg A0 = [] /\ n_timers (base A0) = [] /\ f_bam A0 = repeat true tp22_pool_bam ->
+  f_snd B0 = [] /\ f_rcv B0 = [] /\ f_mpg B0 = [] /\ n_timers (base B0) = [] ->
+  let pv := Net22Bam.bam_pgn22 dp pf ps in
+  let ns := ((length p + 59) / 60)%nat in
+  exists j, let s := Net22.steps22 j (Net22.net22_send (Net22.net22_0 A0 B0 t0) dp pf ps prio sa p) in
+    Net22.pa s = [] /\ Net22.pb s = [] /\ f_snd (Net22.fa s) = [] /\ f_rcv (Net22.fa s) = [] /\
+    f_snd (Net22.fb s) = [] /\ f_rcv (Net22.fb s) = [] /\
+    f_bam (Net22.fa s) = repeat true tp22_pool_bam /\
+    Net22.evb2 s = deliveries (base B0) 7 pv sa addr_GLOBAL p /\
+    Net22.wab2 s = tp22_bam prio sa 0 pv (len p) (Z.of_nat ns)
+             :: map (fun k => match dt_frame sa addr_GLOBAL 0 (Z.of_nat k + 1) (Net22Proofs.row p k) with
+                              | Some (fr, _) => fr | None => tp22_bam prio sa 0 pv (len p) (Z.of_nat ns) end) (seq 0 ns)
+             ++ [tp22_eom_status sa addr_GLOBAL 0 (len p) (Z.of_nat ns) pv].
+Proof. exact Net22Bam.bam_closed_loop22_delivers_any. Qed.
+Print Assumptions C02_bam_closed_loop_delivers_pdu1_and_pdu2.
+
 From J1939P Require Net21Seq Net22Seq.
 
 (* T02.11 / T10.20: a HISTORY of FD transfers.  Any number of J1939-22 connection-mode transfers (any payloads of more than 60
